@@ -274,10 +274,17 @@ def check_market_data(md, E):
 def env_arrays(hid, idx, op, e, rust, E, numpy_env=None):
     """C19: arrays, dictionaries — each element against the documented quantity taken from the Rust core."""
     c2 = parse_l2(E["c2"])
+    bad = []
+    # "for every market state": right after construction and right after a step the observation describes the MARKET - the
+    # live book's own level-2 data - not merely whatever snapshot the environment happens to hold
+    if (op == "init" or op.startswith("step")) and "l2" in rust and parse_l2(rust["l2"]) != c2:
+        live = parse_l2(rust["l2"])
+        l2now = [int(x) for x in e.level_2_data_array()]
+        tv0 = int(E["tvs"].split(",")[-1]) if E["tvs"] not in ("-", "") else 0
+        bad.append("observation_is_not_the_market_state:" + "+".join(str(i) for i, (a, b) in enumerate(zip(l2now, doc_l2(tv0, live))) if a != b))
     # index 0 is documented as "trade volume (in the last step)": the last entry of the per-step series the core
     # recorded (itself reconciled with the trade log by C11), 0 before the first step - not the book's running counter
     tv = int(E["tvs"].split(",")[-1]) if E["tvs"] not in ("-", "") else 0
-    bad = []
     l1 = [int(x) for x in e.level_1_data_array()]
     l2 = [int(x) for x in e.level_2_data_array()]
     if len(l1) != 9:
